@@ -11,6 +11,7 @@ export VERIF_REPO=$R
 : > "$out"
 for d in $V/seeded/$pat/; do
   id=$(basename "$d"); prop=${id%%-*}
+  grep -q '"retired"' "$d/meta.json" 2>/dev/null && { echo "$id $prop RETIRED (no longer breaks the property; see meta.json)" >> "$out"; continue; }
   git -C $R apply "$d/patch.diff" 2>/dev/null || { echo "$id $prop PATCH-DOES-NOT-APPLY" >> "$out"; continue; }
   res=$($V/check "$prop" 2>&1 | grep -E "^(VIOLATION|OK|KNOWN|  )" | head -6)
   git -C $R apply -R "$d/patch.diff"
